@@ -116,13 +116,13 @@ func (o Op) has(k string) bool { _, ok := o.opt(k); return ok }
 // ---------------------------------------------------------------------------------------------
 // messages
 
-const fieldA, fieldS, fieldC = "default_int32", "default_string", "optional_int32"
+const fieldA, fieldS, fieldC, fieldF, fieldR = "default_int32", "default_string", "optional_int32", "default_foreign_message", "repeated_int32"
 
-var letterPath = map[string]string{"a": fieldA, "s": fieldS, "c": fieldC, "x": "no_such_field"}
+var letterPath = map[string]string{"a": fieldA, "s": fieldS, "c": fieldC, "f": fieldF, "r": fieldR, "x": "no_such_field"}
 
 func parseMsg(s string) *T {
 	p := strings.Split(s, "/")
-	if len(p) != 3 {
+	if len(p) != 3 && len(p) != 5 {
 		panic("bad msg " + s)
 	}
 	a, err := strconv.ParseInt(p[0], 10, 32)
@@ -137,6 +137,26 @@ func parseMsg(s string) *T {
 		}
 		c32 := int32(c)
 		m.OptionalInt32 = &c32
+	}
+	if len(p) == 5 {
+		if p[3] != "-" {
+			cd := strings.Split(p[3], ":")
+			c, err1 := strconv.ParseInt(cd[0], 10, 32)
+			d, err2 := strconv.ParseInt(cd[1], 10, 32)
+			if err1 != nil || err2 != nil {
+				panic("bad msg " + s)
+			}
+			m.DefaultForeignMessage = &testproto.ForeignMessage{C: int32(c), D: int32(d)}
+		}
+		if p[4] != "-" {
+			for _, x := range strings.Split(p[4], ".") {
+				n, err := strconv.ParseInt(x, 10, 32)
+				if err != nil {
+					panic("bad msg " + s)
+				}
+				m.RepeatedInt32 = append(m.RepeatedInt32, int32(n))
+			}
+		}
 	}
 	return m
 }
@@ -158,10 +178,27 @@ func showMsg(pm proto.Message) string {
 		c = strconv.Itoa(int(*m.OptionalInt32))
 	}
 	s := fmt.Sprintf("%d/%s/%s", m.DefaultInt32, m.DefaultString, c)
+	if m.DefaultForeignMessage != nil || len(m.RepeatedInt32) > 0 {
+		f, r := "-", "-"
+		if fm := m.DefaultForeignMessage; fm != nil {
+			f = fmt.Sprintf("%d:%d", fm.C, fm.D)
+			if len(fm.ProtoReflect().GetUnknown()) > 0 {
+				f += "!unknown"
+			}
+		}
+		if len(m.RepeatedInt32) > 0 {
+			xs := make([]string, len(m.RepeatedInt32))
+			for i, x := range m.RepeatedInt32 {
+				xs[i] = strconv.Itoa(int(x))
+			}
+			r = strings.Join(xs, ".")
+		}
+		s += "/" + f + "/" + r
+	}
 	extra := false
 	m.ProtoReflect().Range(func(fd protoreflect.FieldDescriptor, _ protoreflect.Value) bool {
 		switch string(fd.Name()) {
-		case fieldA, fieldS, fieldC:
+		case fieldA, fieldS, fieldC, fieldF, fieldR:
 		default:
 			extra = true
 		}
@@ -317,6 +354,8 @@ func namedIcpt(n string) func(string) string {
 		return lowerASCII
 	case "dash":
 		return func(s string) string { return "-" + s }
+	case "dup":
+		return func(s string) string { return s + s }
 	case "first":
 		return func(s string) string {
 			if len(s) > 1 {
